@@ -200,5 +200,5 @@ def run(ctx):
         raise MachineryError('binding self-test: unclamped VMDK stub stays within the bound (%d)' % worst_stub)
     ctx.stage('binding-selftest', unclamped_stub_retains=worst_stub)
     ctx.cov['rule'] = ('hostile layouts enumerated by TLC (every length/count/offset field at boundary and maximal values, '
-                       '3 MiB streams) plus mutated/truncated/polyglot/unstructured images, each under giant / 1 MiB / 64 KiB / '
+                       '3 MiB streams; also region entries behind the metadata entry announcing 2^32-1 bytes) plus mutated/truncated/polyglot/unstructured images, each under giant / 1 MiB / 64 KiB / '
                        '4 KiB / boundary / random chunkings; retention observed after every chunk; distinct_nontrivial = cases')
